@@ -328,7 +328,7 @@ func run(c *vh.Ctx) error {
 			res.Fail("corpus", "", "corpus witness fails again: "+f+": "+what, f)
 		}
 	}
-	nScripts := c.N(140, 1500)
+	nScripts := c.N(450, 5000)
 	if c.Search {
 		nScripts *= 2
 	}
